@@ -22,6 +22,22 @@ def run(chk):
     for e, nch, u in G.gen_decode(rng, thorough, overestimate_only=True):
         cases.append('c%d decode %d %d %s' % (len(cases), e, nch, G.hexu(u, e))); meta.append((e, nch, u))
     ml, il, ierr = vlib.run_pair(mexe, wrapper, cases)
+    # the same strings through fonts of other kinds: whether a character has a glyph (some of these fonts map even U+0000 to one), is
+    # a pseudo glyph or is unmapped must not matter to where reading stops
+    fonts = ['Scheherazadegr.ttf', 'Awami_test.ttf', 'charis_r_gr.ttf', 'general.ttf'] + (['Annapurnarc2.ttf', 'Awami_compressed_test.ttf', 'Scheherazadegr_noglyfs.ttf', 'small.ttf'] if thorough else [])
+    allc, allm, alli, allml = list(cases), list(meta), list(il), list(ml)
+    for fn in fonts:
+        wf = wrapper[:-3] + '_' + fn.split('.')[0] + '.sh'
+        with open(wf, 'w') as fh:
+            fh.write(open(wrapper).read().rstrip('\n') + ' ' + fn + '\n')
+        os.chmod(wf, 0o755)
+        sub = [k for k in range(len(cases)) if thorough or k % 3 == 0]
+        fc = ['%s.%s %s' % (cases[k].split()[0], fn.split('.')[0], ' '.join(cases[k].split()[1:])) for k in sub]
+        _, fil, _ = vlib.run_pair(None, wf, fc)
+        for k, c2, i2 in zip(sub, fc, fil):
+            allc.append(c2 + ' @' + fn); allm.append(meta[k]); alli.append(i2)
+            allml.append((ml[k] or '').replace(cases[k].split()[0], c2.split()[0], 1) if ml[k] else None)
+    cases, meta, il, ml = allc, allm, alli, allml
     ndis, classes = 0, set()
     for c, (e, nch, u), m, i in zip(cases, meta, ml, il):
         if i is None:
@@ -45,9 +61,9 @@ def run(chk):
             ndis += 1
             chk.tie_break('correspondence:read_text', 'model %r vs implementation %r' % (m, i), c)
     chk.cov.update(evaluations=len(cases), distinct_nontrivial=len(classes), disagreements_checked=ndis,
-                   rule='NUL-terminated strings (all over a boundary alphabet up to 2-3 units, structured well-/ill-formed longer ones) in the three '
+                   rule='over Padauk and %d further fonts (among them fonts whose cmap gives U+0000 a glyph): NUL-terminated strings (all over a boundary alphabet up to 2-3 units, structured well-/ill-formed longer ones) in the three '
                         'encodings, nChars in {len, len+1, 2len+3, 64}, buffer allocated exactly to the terminator under ASan; non-trivial = distinct '
-                        '(encoding, reference status, length class, over-estimate class)',
+                        '(encoding, reference status, length class, over-estimate class)' % len(fonts),
                    samples=[cases[0], cases[len(cases) // 2], cases[-1]], exhaustive=False)
 
 
